@@ -244,7 +244,7 @@ pub fn spaces(tier: Tier) -> Vec<Space<'static>> {
     // string bodies: every sequence of <= 4 units over an alphabet of escapes and raw characters
     // (runs of backslashes before a quote, escapes next to escapes, raw control characters)
     {
-        const UNITS: [&[u8]; 10] = [b"\\\\", b"\\\"", b"a", b"\\/", b"\\n", b"\\u0041", b"\x01", "é".as_bytes(), b"/", b"u"];
+        const UNITS: [&[u8]; 11] = [b"\\\\", b"\\\"", b"a", b"\\/", b"\\n", b"\\u0041", b"\x01", "é".as_bytes(), b"/", b"u", b"\x7f"];
         let n = UNITS.len() as u64;
         let total: u64 = (0..=4u32).map(|k| n.pow(k)).sum();
         sp.push(Space::new("string bodies: every sequence of <= 4 escape/raw units, as value and as key", total, move |idx, acc| {
